@@ -24,6 +24,7 @@ from sim import core, repo, world
 from sim.core import OK, VIOLATION, DISCARD, sub_rng
 
 STEP_BUDGET = 60_000
+LAZY_MARK = "\x00lazy-ref"  # by-identity marker of a nested lazy list inside a snapshot; cannot be confused with data
 OBS_LIMIT = 60
 
 COPY_OPS = [":", "D", "Ḃ", "→a", "←a", "→b", "←b", "£", "¥", "⅛", "¾", "W", "\"", "w", "?", "$", "Ȯ", "^", "_",
@@ -313,7 +314,7 @@ class C10(core.Check):
                 return ["deep"]  # a list that (now) contains itself, or absurd nesting
             if isinstance(v, LL):
                 r = by_id.get(id(v))
-                return ["L", refs.index(r) if r is not None else -1]
+                return [LAZY_MARK, refs.index(r) if r is not None else -1]
             if isinstance(v, list):
                 return [snap(x, depth + 1) for x in v]
             if isinstance(v, types.FunctionType):
@@ -379,7 +380,7 @@ class C10(core.Check):
         def trunc(v):
             # lazy observations are cut at OBS_LIMIT items per level; cut eager snapshots the same way
             if isinstance(v, list):
-                if len(v) == 2 and v[0] == "L" and isinstance(v[1], int):
+                if len(v) == 2 and v[0] == LAZY_MARK and isinstance(v[1], int):
                     return v
                 return [trunc(x) for x in v[:OBS_LIMIT]]
             return v
@@ -387,7 +388,7 @@ class C10(core.Check):
         def resolve(model, depth=0):
             """replace by-identity markers of nested lazy parts with what those parts are known to denote"""
             if isinstance(model, list):
-                if len(model) == 2 and model[0] == "L" and isinstance(model[1], int):
+                if len(model) == 2 and model[0] == LAZY_MARK and isinstance(model[1], int):
                     if model[1] < 0 or model[1] >= len(refs) or depth > 6:
                         return None
                     inner = classes.get(refs[model[1]].cls)
@@ -639,7 +640,7 @@ class C10(core.Check):
 
     def has_lazy(self, s):
         if isinstance(s, list):
-            if len(s) == 2 and s[0] == "L" and isinstance(s[1], int):
+            if len(s) == 2 and s[0] == LAZY_MARK and isinstance(s[1], int):
                 return True
             return any(self.has_lazy(x) for x in s)
         return False
